@@ -119,6 +119,22 @@ class ThriftCore(object):
     return self.svc.last, ob.getvalue(), consumed_all
 
 
+def mangle_payload(payload, how):
+  """Thrift reply payloads a client cannot decode as the reply it expects."""
+  if how == 'truncate':
+    return payload[:max(1, len(payload) // 2)]
+  if how == 'empty':
+    return b''
+  if how == 'noise':
+    return bytes((b * 73 + 41) & 0xff for b in payload[:64]) or b'\xff\xfe'
+  if how == 'bad-version':
+    return b'\x00\x00' + payload[2:]         # not the strict binary protocol's 0x8001 version word
+  if how == 'huge-string':
+    # message header kept, then a string field whose length word is 2^31-1
+    return payload[:12] + b'\x0b\x00\x00\x7f\xff\xff\xff' + payload[12:20]
+  raise ValueError(how)
+
+
 class DefaultPolicy(object):
   """Reply policy: per request returns a dict of
   delay, drop, chunks, dup, close ('fin'|'rst'|None), close_delay."""
@@ -152,9 +168,15 @@ class BaseProtoServer(object):
   def on_close(self, conn):
     pass
 
-  def _reply(self, conn, req, data, label):
+  def _reply(self, conn, req, data, label, payload=None):
     act = self.policy(self, conn, req) or {}
     req['action'] = {k: v for k, v in act.items() if k != 'chunks'}
+    if act.get('mangle') and payload is not None:
+      # a well-framed reply whose Thrift payload is not what the binary protocol expects
+      bad = mangle_payload(payload, act['mangle'])
+      data = (struct.pack('>i', len(bad)) + bad) if req.get('proto') == 'thrift' else mc.rdispatch(req['tag'], mc.ST_OK, bad)
+      label = 'mangled:' + label
+      req['mangled'] = act['mangle']
     if act.get('as') in ('rerr', 'bad_rerr') and req.get('proto') == 'mux':
       # answer the tag with an error frame (current or legacy encoding) instead of Rdispatch
       data = mc.rerr(req['tag'], b'server error', bad=(act['as'] == 'bad_rerr'))
@@ -209,7 +231,7 @@ class ThriftServer(BaseProtoServer):
              'call': call, 'consumed_all': consumed_all, 'proto': 'thrift'}
       req['seq'] = self.env.emit('srv.request', conn=conn.id, call=_short(call), ep=self.ep)['seq']
       self.requests.append(req)
-      self._reply(conn, req, struct.pack('>i', len(reply)) + reply, 'reply:%d' % len(self.requests))
+      self._reply(conn, req, struct.pack('>i', len(reply)) + reply, 'reply:%d' % len(self.requests), payload=reply)
 
 
 class MuxServer(BaseProtoServer):
@@ -255,7 +277,7 @@ class MuxServer(BaseProtoServer):
                'consumed_all': consumed_all, 'proto': 'mux'}
         req['seq'] = self.env.emit('srv.request', conn=conn.id, call=_short(call), tag=tag, ep=self.ep)['seq']
         self.requests.append(req)
-        self._reply(conn, req, mc.rdispatch(tag, mc.ST_OK, reply), 'rdispatch:%d' % tag)
+        self._reply(conn, req, mc.rdispatch(tag, mc.ST_OK, reply), 'rdispatch:%d' % tag, payload=reply)
       else:
         self._bad(conn, 'unexpected message type %d from a client' % typ, frame)
         return
